@@ -50,9 +50,22 @@ def sister_frame(body, k):
         from beyond import constants
         from beyond.frames import center, frames, orient
 
+        import copy
+
+        from beyond.dates import Date
+        from beyond.orbits import StateVector
+
         base = frames.get_frame(frame_for(body)) if isinstance(frame_for(body), str) else frame_for(body)
         b = getattr(constants, body)
-        c = center.Center(name + "C", body=constants.Body(name, b.mass * k, b.equatorial_radius))
+        # the new body is DERIVED from one that has already served (the way beyond.env.solarsystem derives its
+        # bodies: a copy, then other attributes), not built from scratch: nothing the first body picked up while
+        # serving may stick to the second
+        r0 = 3 * b.equatorial_radius
+        StateVector([r0, 0, 0, 0, math.sqrt(b.mu / r0), 1.0], Date(2020, 1, 1), "cartesian", base).copy(form="tle")
+        b2 = copy.deepcopy(b)
+        b2.name = name
+        b2.mass = b.mass * k
+        c = center.Center(name + "C", body=b2)
         c.add_link(base.center, orient.EME2000, np.zeros(6))
         _frames[name] = frames.Frame(name, orient.EME2000, c)
     return _frames[name]
